@@ -200,7 +200,10 @@ func TableFor(sql string) (string, error) {
 	if err != nil {
 		return "", err
 	}
-	stmt := parsed.(*sqlparser.Select)
+	stmt, ok := parsed.(*sqlparser.Select)
+	if !ok {
+		return "", fmt.Errorf("Only SELECT statements are supported, not %v", reflect.TypeOf(parsed))
+	}
 	return strings.ToLower(nodeToString(stmt.From[0])), nil
 }
 
@@ -210,7 +213,11 @@ func Parse(sql string) (*Query, error) {
 	if err != nil {
 		return nil, fmt.Errorf("Error parsing %v: %v", sql, err)
 	}
-	return parse(parsed.(*sqlparser.Select))
+	stmt, ok := parsed.(*sqlparser.Select)
+	if !ok {
+		return nil, fmt.Errorf("Only SELECT statements are supported, not %v", reflect.TypeOf(parsed))
+	}
+	return parse(stmt)
 }
 
 func parse(stmt *sqlparser.Select) (*Query, error) {
@@ -1172,10 +1179,20 @@ func goFnExprFor(e *sqlparser.FuncExpr, fname string) (goexpr.Expr, error) {
 		if err != nil {
 			return nil, err
 		}
+		if fname == "LUA" {
+			_, keysOK := p1.(*goexpr.ArrayExpr)
+			_, argsOK := p2.(*goexpr.ArrayExpr)
+			if !keysOK || !argsOK {
+				return nil, fmt.Errorf("Function LUA requires its 2nd and 3rd parameters to be ARRAYs")
+			}
+		}
 		return tfn(p0, p1, p2), nil
 	}
 	vfn, found := varGoExpr[fname]
 	if found {
+		if fname == "CONCAT" && numParams == 0 {
+			return nil, fmt.Errorf("Function CONCAT requires at least 1 parameter")
+		}
 		params := make([]goexpr.Expr, 0, numParams)
 		for i := 0; i < numParams; i++ {
 			param, err := paramGoExpr(e, i)
